@@ -19,7 +19,7 @@ RULE = ("Client-side history of two events per case: s = encode(m, G, v, mode, t
         "routine to well-formed coding graphs (out-degrees 1-4 mixed; no out-degree 3 for fast mode), oracle-built "
         "closed sub-graphs for t=1..4, the complete graph; every live start vertex for k<=2, sampled otherwise; message "
         "classes empty/len1-3/zeros/ones/leading zeros/trailing 1/2^n+-1/odd/random; element types int64/int32/int8/"
-        "uint8/list; tables none/random/constant; check lengths 0,1,2,5,33. A case is non-trivial when the message is "
+        "uint8/list; tables none/random/constant; check lengths 0,1,2,5,33 and random 1..70. A case is non-trivial when the message is "
         "non-empty and (the graph has >= 2 distinct out-degrees, or a table, or a check is used); distinct = distinct "
         "canonical hash of (graph, start, message, mode, table, check length, dtype).")
 ASSUMPTIONS = ["message element types limited to int64/int32/int8/uint8 arrays and Python int lists (numpy bool arrays "
@@ -64,7 +64,7 @@ def generate(ctx):
             for _ in range(per_start):
                 bits, mclass = gens.message(rng, max_len if rng.random() < 0.92 else ctx.pick(400, 2048) if rng.random() < 0.3 else ctx.pick(160, 700))
                 yield "roundtrip", dict(gcase, start=int(start), bits=bits, fast=fast, table=rand_table_spec(rng),
-                                        vt=rng.choice(VTS), dtype=rng.choice(DTYPES), mclass=mclass, fam=fam)
+                                        vt=rng.choice(VTS) if rng.random() < 0.7 else rng.randint(1, 70), dtype=rng.choice(DTYPES), mclass=mclass, fam=fam)
 
 
 def check_roundtrip(ctx, case):
@@ -119,7 +119,7 @@ def check_roundtrip(ctx, case):
     ctx.cls("dtype|" + case["dtype"])
     ctx.cls("family|" + case["fam"])
     ctx.cls("k|%d" % k)
-    ctx.cls("vt|%d" % vt)
+    ctx.cls("vt|%s" % (vt if vt in VTS else "other"))
     if L and L % 2 and fast:
         ctx.cls("fast-odd-length")
     ctx.obs("max_message_bits", L)
